@@ -333,7 +333,12 @@ class C14(Property):
         # the single= table, stated on the list result of the same call
         if single:
             want = cm.single_of(strict, as_list)
-            if observed != want:
+            several = len(as_list.get("list", [])) > 1
+            if not strict and several:
+                # documented as "an unspecified element from the result set"
+                if observed.get("one") not in as_list["list"]:
+                    fails.append({"clause": "single-table", "expected": {"one-of": as_list["list"]}, "observed": observed})
+            elif observed != want:
                 fails.append({"clause": "single-table", "expected": want, "observed": observed})
         # results are elements of this tree (never slots or foreign objects)
         got = as_list.get("list", [])
@@ -341,12 +346,21 @@ class C14(Property):
             fails.append({"clause": "results-are-elements", "expected": "labels", "observed": got})
         if not strict and as_list.get("error") == "LookupError":
             fails.append({"clause": "non-strict-never-raises-LookupError", "expected": "a list", "observed": as_list})
+        # find() raises LookupError, or ValueError from int() while compiling a malformed bracket; nothing else
+        for r in (observed, as_list):
+            if r.get("error") not in (None, "LookupError", "ValueError"):
+                fails.append({"clause": "unexpected-exception", "expected": "a result or LookupError", "observed": r})
+                break
         ast = case.get("ast")
         if ast is not None and cm.ast_wf(ast):
             if cm.print_path(ast) != path:
                 fails.append({"clause": "harness-printing", "expected": cm.print_path(ast), "observed": path})
             want = _denote_obs(ast, start, label, single, strict)
-            if observed != want:
+            lax_several = single and not strict and "one" in want and len(
+                _denote_obs(ast, start, label, False, strict).get("list", [])) > 1
+            if lax_several:
+                pass  # covered by the single-table clause (unspecified element)
+            elif observed != want:
                 fails.append({"clause": "denotation", "expected": want, "observed": observed, "path": path})
         return fails
 
